@@ -225,8 +225,15 @@ func verifHarness_FamMut(prop, fam, budget, maxList, mut, wrap int) {
 		b2.limit = k
 	case 1:
 		b2.dropAt = k
-	default:
+	case 2:
 		b2.replaceAt = k
+	default:
+		// a ',' inserted before token k (trailing commas, doubled commas, comma after an opening bracket)
+		b2.gapAt = k
+		b2.gapText = " , "
+		if k == 0 {
+			b2.gapText = ", "
+		}
 	}
 	verifFamilies[fam](b2)
 	x := b2.text
